@@ -5,7 +5,7 @@ CFG = dict(
     areas=["c18", "purity", "mt"],
     # purity belongs to C13/C07: here the declared-size verdicts of LZMAWriter (lzexp / lzexpn) count;
     # mt: the MT writers cut units / members of exactly the configured size (output == per-unit encoding)
-    oracle_filter={"purity": r"declared|accepted|header does not carry|finish was rejected", "mt": r"MT output|partial MT output"},
+    oracle_filter={"purity": r"declared|accepted|header does not carry|finish was rejected", "mt": r"MT output|partial MT output|MT reader cut"},
     level="proof",
     theorems_expected=["C18_xz_block_bound", "C18_xz_blocks_unset", "C18_xz_block_bound_refuted",
                        "C18_xz_block_bound_refuted_small_writes", "C18_lzip_member_bound", "C18_lzip_members",
